@@ -97,6 +97,32 @@ theorem undefined_acl_is_refused (c : Conf) (act : Bytes) (pre : List Bytes) (na
     rcases hact with h | h <;> simp [h]
   simp only [hne, ↓reduceIte, key pre hdef]
 
+/-- **Text level: a configuration line.**  A line written as words (non-empty, free of white space, not starting with `#`)
+separated by single spaces is read back by the tokenizer as exactly these words. -/
+theorem config_line_words (ws : List Bytes) (h : ∀ t ∈ ws, Word t) : tokens (joinSp ws) = ws :=
+  tokens_joinSp ws h
+
+/-- **Text level: `A`.**  For every dotted-quad text `q` of an address `a` (any canonical decimal octets): the src/dst
+value `q` is accepted and covers exactly the address `a`. -/
+theorem ip_text_single (q : Bytes) (a : Nat) (hq : IsQuadText q a) (ha : a ≠ 4294967295) :
+    ∃ item, parseIpToken Gen.HttpAccessCfg.v6Literals q = .item item ∧ ∀ ip, item.Covers ip ↔ ip = a :=
+  ip_value_single q a hq ha
+
+/-- **Text level: `A/len`.**  The value `q/len` (1 ≤ len ≤ 32, `A` need not be aligned) is accepted and covers exactly
+the block of `2^(32-len)` addresses that contains `A`. -/
+theorem ip_text_cidr (q l : Bytes) (a len : Nat) (hq : IsQuadText q a) (hl : canonDec? l = some len)
+    (h1 : 1 ≤ len) (h32 : len ≤ 32) (ha : a ≠ 4294967295) :
+    ∃ item, parseIpToken Gen.HttpAccessCfg.v6Literals (q ++ 47 :: l) = .item item ∧
+      ∀ ip, item.Covers ip ↔ clearLow (32 - len) a ≤ ip ∧ ip < clearLow (32 - len) a + 2 ^ (32 - len) :=
+  ip_value_cidr q l a len hq hl h1 h32 ha
+
+/-- **Text level: `A-B`.**  The value `q1-q2` with `0 < A ≤ B < 255.255.255.255` is accepted and covers exactly the
+addresses from `A` to `B`. -/
+theorem ip_text_range (q1 q2 : Bytes) (a b : Nat) (hq1 : IsQuadText q1 a) (hq2 : IsQuadText q2 b)
+    (ha : 0 < a) (hab : a ≤ b) (hb : b < 4294967295) :
+    ∃ item, parseIpToken Gen.HttpAccessCfg.v6Literals (q1 ++ 45 :: q2) = .item item ∧ ∀ ip, item.Covers ip ↔ a ≤ ip ∧ ip ≤ b :=
+  ip_value_range q1 q2 a b hq1 hq2 ha hab hb
+
 /-- The prefix quirk of `HttpRequestMethodXXX(char const *)` (SBuf::caseCmp with the token's length): the ACL value
 `PO` is read as POST, so `acl m method PO` matches POST requests and does not match a request whose method is `PO`
 (stated for a tree whose HttpRequestMethodXXX does not compare lengths; the flag is read from the staged source). -/
@@ -126,6 +152,12 @@ example :
        mkReq 2133658113 (bytes! "GET") (bytes! "a.example.com") none [2133655553] none,
        mkReq 2133658113 (bytes! "GET") (bytes! "nx.example.net") none [] none]
       = .run [.deny, .fwd, .dnsfail] := by decide +kernel
+
+-- the text 127.45.10.0 is a quad text of 2133658112, so the text theorems apply to it
+example : IsQuadText (bytes! "127.45.10.0") 2133658112 :=
+  ⟨bytes! "127", bytes! "45", bytes! "10", bytes! "0", 127, 45, 10, 0, by decide, by decide, by decide, by decide, by decide,
+    by decide, by decide, by decide, by decide, by decide⟩
+example : Word (bytes! "http_access") := by unfold Word; decide
 
 -- refused configurations
 example : (match scenario [bytes! "http_access allow nosuch"] [] with | .reject .aclNotFound => true | _ => false) = true := by
